@@ -273,7 +273,10 @@ def run_case(case):
     # healthy workers are never murdered
     for e in k.kill_log:
         if e["ctx"] == "murder" and e["mode"] == "healthy" and e["sig"] in (int(signal.SIGABRT), int(signal.SIGKILL)):
-            old_gen = (e.get("old_generation") and e.get("master_timeout") and e["wtimeout"] * 2 > e["master_timeout"])
+            # "old generation" = the worker was given its wait bound under a larger timeout than the one it is judged by now (that
+            # includes a worker forked for a TTIN that was queued just in front of the HUP, which is not yet in the process table when
+            # the HUP event is applied)
+            old_gen = bool(e.get("master_timeout") and e["wtimeout"] * 2 > e["master_timeout"])
             V("healthy-never-killed", "healthy-worker-killed-by-timeout-scan" + (":old-generation-after-timeout-lowered" if old_gen else ""),
               {"kill": e, "heartbeat_age": e["hb_age"], "worker_wait_bound": e["wtimeout"], "timeout": T},
               "no ABRT/KILL for a worker whose heartbeat age stays within its bound")
